@@ -32,6 +32,11 @@ type GenConfig struct {
 	// RootNamespace of the main package (default "Main").
 	RootNamespace string
 
+	// SharedNamesPct: chance (percent) that an imported package names its definitions with the same
+	// scheme as the main package (Rec0, En1, ...), so that different namespaces define types with
+	// the same simple name.
+	SharedNamesPct int
+
 	// ArgRefPct: chance (percent) that a generic argument is a reference to a non-generic named
 	// type (record, enum, alias) instead of the default mix; 0 keeps the default distribution.
 	ArgRefPct int
@@ -39,7 +44,7 @@ type GenConfig struct {
 
 func DefaultGen() GenConfig {
 	return GenConfig{MaxDefs: 8, MaxImports: 2, MaxProtocols: 2, MaxSteps: 6, MaxDepth: 3, MaxFiles: 3,
-		Generics: true, Computed: true, Comments: true, Excl: map[string]bool{}, ExclCount: map[string]int{}}
+		Generics: true, Computed: true, Comments: true, SharedNamesPct: 25, Excl: map[string]bool{}, ExclCount: map[string]int{}}
 }
 
 func (c *GenConfig) excluded(f string) bool {
@@ -123,6 +128,14 @@ func (g *gen) refType(depth int) *Type {
 		var args []*Type
 		for range sd.def.TypeParams {
 			args = append(args, g.argType(depth+1))
+		}
+		// now and then a generic is instantiated with an instantiation of itself (Rec<Rec<X>>)
+		if g.cfg.ArgRefPct > 0 && len(args) > 0 && g.chance("argSelfNest", 10) {
+			inner := make([]*Type, len(args))
+			for i := range inner {
+				inner[i] = g.leafRef()
+			}
+			args[g.intn("argSelfNestPos", len(args))] = Ref(sd.ns, sd.def.Name, inner...)
 		}
 		r := Ref(sd.ns, sd.def.Name, args...)
 		if g.env.TypeOK(r) {
@@ -792,7 +805,11 @@ func GenPackage(t *rapid.T, cfg *GenConfig) *Package {
 		}
 		g.curNs = ip.Namespace
 		g.env = envOf(append(append([]*Package{}, imps...), ip))
-		g.defs(ip, 1+g.intn("impDefs", 4), fmt.Sprintf("%c", 'A'+i))
+		prefix := fmt.Sprintf("%c", 'A'+i)
+		if cfg.SharedNamesPct > 0 && g.chance("impSharedNames", cfg.SharedNamesPct) {
+			prefix = ""
+		}
+		g.defs(ip, 1+g.intn("impDefs", 4), prefix)
 		_ = saved
 		imps = append(imps, ip)
 	}
